@@ -37,6 +37,10 @@ def run(ctx):
     agg = run_family("C01F3", f3, NAMES, dev=dev, invariants=INVS, properties=[], perms=perms[:2],
                      timeout=600 if quick else 3000, simulate=(150 if quick else 6000, 600, ctx.seed))
     ctx.add_family(agg)
+    # F6: nested elements whose definitions are spelled with the very same text
+    f6, pool6 = F.c05_sametext(ctx.tier, rnd)
+    agg = run_family("C01F6", f6, sorted(set(pool6) | {"error"}), dev=dev, invariants=INVS, properties=[], perms=(0,), timeout=600)
+    ctx.add_family(agg)
     f5 = F.c01_extras(ctx.tier, rnd)
     agg = run_family("C01F5", f5, NAMES, dev=dev, invariants=INVS, properties=PROPS, perms=perms[:2] if quick else perms[:4],
                      timeout=600)
